@@ -696,6 +696,13 @@ def c18_family(tier):
             one('exit-shutdown', {'faults': [{'at': 'process', 'k': k, 'what': 'exit'}, {'at': 'shutdown', 'what': 'exit'}]}, {}, 'clean', length)
             one('raise-shutdown', {'faults': [{'at': 'process', 'k': k, 'what': 'exit'}, {'at': 'shutdown', 'what': 'raise'}]}, {}, 'error', length)
 
+    # a slow lineage backend: RUNNING requests that take 1.5 / 3 heartbeat intervals are in flight when the run ends
+    for ms in [1500, 3000]:
+        for nm, fp, ex, kd in [('exit-process', {'faults': [{'at': 'process', 'k': 12, 'what': 'exit'}]}, {}, 'clean'),
+                               ('raise-process', {'faults': [{'at': 'process', 'k': 12, 'what': 'raise'}]}, {}, 'error'),
+                               ('stop-evt', {}, {'stop_at': [{'f': 'flt', 'at_ms': 1200}]}, 'clean')]:
+            one(f'slow-backend{ms}/{nm}', fp, {**ex, 'lineage': {'interval': 1, 'emit_ms': {'RUNNING': ms}}, 'horizon_ms': 1200 + 2 * ms + 2500}, kd, 'one')
+
     one('exit-setup', {'faults': [{'at': 'setup', 'what': 'exit'}]}, {}, 'clean', 'short')
     one('raise-setup', {'faults': [{'at': 'setup', 'what': 'raise'}]}, {}, 'error', 'short')
     one('init-bad-output', {'config': {'outputs': ['file:///nowhere']}}, {}, 'error', 'short')
